@@ -37,20 +37,128 @@ def xcase_term(pipe, req, res, n=48, exps=()):
     return '(mkX %s %s %s %s)' % (env_for(pipe, req, n, exps), emit.crequest(req), fin_t, emit.cobserved(res))
 
 
+def exp_args(req, res):
+    """arguments at which the real code may evaluate math.Exp for this request (a superset)"""
+    xs = set()
+    for b in req.get('biases') or []:
+        p = b.get('props') if isinstance(b.get('props'), dict) else {}
+        if b.get('name') == 'fatigue' and p.get('function') == 'expFromZero':
+            fp = p.get('params') or {}
+            xs.add(float(fp.get('alpha', 0)) * float(fp.get('queryNumber', 0)))
+    stages = [s for s in (res.get('stages') or []) if s.get('name') == 'anchoring']
+    reqb = [b for b in (req.get('biases') or []) if b.get('name') == 'anchoring' and not b.get('disabled')]
+    for st in stages:
+        cur = st.get('curBefore') or {}
+        alts = (cur.get('ConsideredAlternatives') or []) + (cur.get('NotConsideredAlternatives') or [])
+        for b in reqb:
+            p = b.get('props') or {}
+            alphas = [float(f['params'].get('alpha', 0)) for f in (p.get('loss'), p.get('gain'))
+                      if isinstance(f, dict) and f.get('function') == 'expFromZero' and isinstance(f.get('params'), dict)]
+            if not alphas:
+                continue
+            anch = [a.get('alternative') for a in (p.get('anchoringAlternatives') or [])]
+            for c in cur.get('Criteria') or []:
+                cid = c['Id']
+                vals = [a['Criteria'].get(cid) for a in alts if cid in a['Criteria']]
+                if not vals:
+                    continue
+                if c.get('ValuesRange'):
+                    mn, mx = c['ValuesRange']['Min'], c['ValuesRange']['Max']
+                else:
+                    mn, mx = vals[0], vals[0]
+                    for v in vals[1:]:
+                        if mn > v:
+                            mn = v
+                        if mx < v:
+                            mx = v
+                dif = 1.0 - 0.0
+                cd = mx - mn
+                scale = dif / cd if cd != 0 else 0.0
+                sg = -1.0 if c.get('Type') == 'cost' else 1.0
+                refs = [a['Criteria'][cid] for a in alts if a['Id'] in anch and cid in a['Criteria']]
+                for a in alts:
+                    if cid not in a['Criteria']:
+                        continue
+                    for r in refs:
+                        d = (a['Criteria'][cid] * sg - r * sg) * scale
+                        for al in alphas:
+                            xs.add(al * d)
+                            xs.add(al * (-d))
+    return sorted(xs)
+
+
+_exp_cache = {}
+
+
+def exp_table(pipe, xs):
+    need = [x for x in xs if x not in _exp_cache]
+    if need:
+        r = pipe.call({'op': 'exp', 'xs': need})
+        for x, y in zip(need, r['vals']):
+            _exp_cache[x] = y if not isinstance(y, str) else float(y.replace('+Inf', 'inf').replace('-Inf', '-inf').replace('NaN', 'nan'))
+    return [(x, _exp_cache[x]) for x in xs]
+
+
 def run_all(pipe, reqs, tag, n=48, op='trace'):
     """returns (results, verdicts, logs): verdicts[i] = judge_all columns for request i"""
     ress, terms = [], []
     for r in reqs:
         res = pipe.call({'op': op, 'req': r})
         ress.append(res)
-        terms.append(xcase_term(pipe, r, res, n))
+        terms.append(xcase_term(pipe, r, res, n, exp_table(pipe, exp_args(r, res))))
     verd, logs = core.run_cases(tag, 'judge_all', terms)
     # retry cases that ran out of shipped random numbers with a longer prefix
     again = [i for i, v in enumerate(verd) if v and v[0] == 10]
     if again and n < 2000:
-        t2 = [xcase_term(pipe, reqs[i], ress[i], 2048) for i in again]
+        t2 = [xcase_term(pipe, reqs[i], ress[i], 2048, exp_table(pipe, exp_args(reqs[i], ress[i]))) for i in again]
         v2, l2 = core.run_cases(tag + 'x', 'judge_all', t2, shard=20)
         for i, v in zip(again, v2):
             verd[i] = v
         logs += l2
     return ress, verd, logs
+
+
+# ---- stages (one bias application each) -----------------------------------------------------------
+SCOLS = ['stage', 'inv', 'frame', 'C09later', 'C15', 'C16', 'C17', 'C18', 'C19']
+
+
+def enabled_biases(req):
+    return [b for b in (req.get('biases') or []) if not (isinstance(b, dict) and b.get('disabled'))]
+
+
+def stage_terms(pipe, req, res, n=48):
+    """one term per traced stage; returns list of (term, info)"""
+    out = []
+    method = req.get('preferenceFunction')
+    stages = res.get('stages') or []
+    # the k-th traced stage belongs to the k-th *fired* enabled bias
+    fired = []
+    if res.get('ok'):
+        echoes = res['resp'].get('biases') or []
+        en = enabled_biases(req)
+        fired = [b for b, ec in zip(en, echoes) if ec.get('props') is not None or b.get('name') == 'criteriaMixing']
+    exps = exp_table(pipe, exp_args(req, res))
+    env = env_for(pipe, req, n, exps)
+    en = enabled_biases(req)
+    # match stages to requested biases by order of names
+    idx = 0
+    for st in stages:
+        while idx < len(en) and en[idx].get('name') != st.get('name'):
+            idx += 1
+        if idx >= len(en):
+            break
+        b = en[idx]
+        idx += 1
+        try:
+            before = emit.cstate_d(method, st['curBefore'])
+            after = 'None' if st.get('curAfter') is None else '(Some %s)' % emit.cstate_d(method, st['curAfter'])
+            afterf = 'None' if st.get('curAfterFinal') is None else '(Some %s)' % emit.cstate_d(method, st['curAfterFinal'])
+            rep = emit.creport(b['name'], method, st.get('props')) if st.get('curAfter') is not None else 'R_none'
+            repf = emit.creport(b['name'], method, st.get('propsFinal')) if st.get('curAfterFinal') is not None else 'R_none'
+        except Exception as e:   # a shape the emitter does not know: reported by the caller
+            out.append((None, {'bias': b, 'stage': st, 'error': repr(e)}))
+            continue
+        term = '(mkS %s %s %s %s %s %s %s %s)' % (env, emit.cstr(b['name']), emit.cbprops(b.get('props'), b['name']),
+                                                  before, after, rep, afterf, repf)
+        out.append((term, {'bias': b, 'stage': st}))
+    return out
